@@ -5,77 +5,6 @@ import vlib
 PROP = "C17"
 
 
-REG_TYPES = ("TlsRecordType", "TlsHandshakeType", "TlsVersion", "TlsHeartbeatMessageType", "TlsCompressionID", "TlsAlertSeverity", "TlsAlertDescription",
-             "TlsExtensionType", "NamedGroup", "SignatureScheme", "HashAlgorithm", "SignAlgorithm", "SNIType", "CertificateStatusType", "CtVersion",
-             "ECCurveType", "KeyUpdateRequest", "PskKeyExchangeMode", "TlsCipherSuiteID")
-
-
-def discover_consts():
-    """Associated constants of the registry newtypes written OUTSIDE the newtype_enum! tables (`impl T { pub const X: T = ...; }`):
-    found in /repo/src at check time and compiled into the harness, so that an alias added next to the tables is judged too."""
-    import glob, re
-    found = []
-    for f in sorted(glob.glob(os.path.join(vlib.REPO, "src", "*.rs"))):
-        src = re.sub(r"//[^\n]*", "", open(f).read())
-        for m in re.finditer(r"\bimpl\s+(?:<[^>]*>\s*)?([A-Za-z_][A-Za-z0-9_]*)\s*(?:<[^>{]*>)?\s*\{", src):
-            ty = m.group(1)
-            if ty not in REG_TYPES:
-                continue
-            depth, k = 1, m.end()
-            while k < len(src) and depth:
-                depth += {"{": 1, "}": -1}.get(src[k], 0)
-                k += 1
-            for c in re.finditer(r"\bpub\s+const\s+([A-Za-z_][A-Za-z0-9_]*)\s*:\s*(?:Self|%s)\s*=" % ty, src[m.end():k]):
-                found.append((ty, c.group(1)))
-    found = sorted(set(found))
-    body = "".join('        ("%s", "%s", (tls_parser::%s::%s).0 as u32),\n' % (t, n, t, n) for t, n in found)
-    text = ("// generated by bin/checks/c17.py from /repo/src at check time: associated constants of the registry newtypes found outside the newtype_enum! tables\n"
-            "pub fn discovered() -> Vec<(&'static str, &'static str, u32)> {\n    vec![\n%s    ]\n}\n" % body)
-    path = os.path.join(vlib.HARNESS, "src", "generated_consts.rs")
-    if not os.path.exists(path) or open(path).read() != text:
-        open(path, "w").write(text)
-    return found
-
-
-WIDTH = {"TlsRecordType": 8, "TlsHandshakeType": 8, "TlsVersion": 16, "TlsHeartbeatMessageType": 8, "TlsCompressionID": 8, "TlsAlertSeverity": 8,
-         "TlsAlertDescription": 8, "TlsExtensionType": 16, "NamedGroup": 16, "SignatureScheme": 16, "HashAlgorithm": 8, "SignAlgorithm": 8, "SNIType": 8,
-         "CertificateStatusType": 8, "CtVersion": 8, "ECCurveType": 8, "TlsCipherSuiteID": 16}
-
-
-def discover_convs():
-    """`impl From<A> for B` between two registry types (or SignatureScheme <-> SignatureAndHashAlgorithm) found in /repo/src at check time:
-    a conversion between code points preserves the number (a pair is hash = high byte, signature = low byte).  Compiled into the harness."""
-    import glob, re
-    found = []
-    for f in sorted(glob.glob(os.path.join(vlib.REPO, "src", "*.rs"))):
-        src = re.sub(r"//[^\n]*", "", open(f).read())
-        for m in re.finditer(r"\bimpl\s+(?:core::convert::|std::convert::)?From\s*<\s*([A-Za-z_][A-Za-z0-9_]*)\s*>\s+for\s+([A-Za-z_][A-Za-z0-9_]*)\b", src):
-            a, b = m.group(1), m.group(2)
-            if a in WIDTH and b in WIDTH and WIDTH[a] <= WIDTH[b]:
-                found.append((a, b, "num"))
-            elif (a, b) == ("SignatureScheme", "SignatureAndHashAlgorithm"):
-                found.append((a, b, "split"))
-            elif (a, b) == ("SignatureAndHashAlgorithm", "SignatureScheme"):
-                found.append((a, b, "join"))
-    found = sorted(set(found))
-    arms = []
-    for a, b, how in found:
-        if how == "num":
-            arms.append('        ("%s", "%s", %d, Box::new(|v: u32| tls_parser::%s::from(tls_parser::%s(v as u%d)).0 as u32 == v)),' % (a, b, (1 << WIDTH[a]) - 1, b, a, WIDTH[a]))
-        elif how == "split":
-            arms.append('        ("%s", "%s", 65535, Box::new(|v: u32| { let p = tls_parser::SignatureAndHashAlgorithm::from(tls_parser::SignatureScheme(v as u16)); '
-                        'p.hash.0 as u32 == v >> 8 && p.sign.0 as u32 == (v & 255) })),' % (a, b))
-        else:
-            arms.append('        ("%s", "%s", 65535, Box::new(|v: u32| tls_parser::SignatureScheme::from(tls_parser::SignatureAndHashAlgorithm { '
-                        'hash: tls_parser::HashAlgorithm((v >> 8) as u8), sign: tls_parser::SignAlgorithm(v as u8) }).0 as u32 == v)),' % (a, b))
-    text = ("// generated by bin/checks/c17.py from /repo/src at check time: conversions between registry types found in the sources\n"
-            "#[allow(clippy::type_complexity)]\npub fn discovered() -> Vec<(&'static str, &'static str, u32, Box<dyn Fn(u32) -> bool>)> {\n    vec![\n%s\n    ]\n}\n" % "\n".join(arms))
-    path = os.path.join(vlib.HARNESS, "src", "generated_convs.rs")
-    if not os.path.exists(path) or open(path).read() != text:
-        open(path, "w").write(text)
-    return found
-
-
 def norm_name(n):
     n = n.upper().replace("_", "")
     for pre in ("ECDH", "TLS", "SSL"):
@@ -86,9 +15,8 @@ def norm_name(n):
 
 def run(tier):
     rep = vlib.Report(PROP, tier)
-    found = discover_consts()
-    convs = discover_convs()
-    binary = vlib.build_harness()
+    binary = vlib.build_harness()      # (regenerates generated_consts.rs / generated_convs.rs from /repo's sources first)
+    found, convs = vlib.discover_consts(), vlib.discover_convs()
     d = vlib.workdir(PROP, "trace")
     dump = os.path.join(d, "dump.ndjson")
     vlib.run_harness(binary, ["sweep-registry", dump])
